@@ -710,7 +710,11 @@ class Xof(Digest):
         h = self._absorb(S, inst, pres)
         reads = pres.get("reads") or [inst["outlen"]]
         out = []
-        for n in reads:
+        copies = pres.get("read_copies") or []
+        for i, n in enumerate(reads):
+            if i < len(copies) and copies[i] and hasattr(h, "copy"):
+                h = S.new(self.modefam + ".copy", h.copy)
+                S.counters["xof_copies_between_reads"] = S.counters.get("xof_copies_between_reads", 0) + 1
             out.append(bytes(S.new(self.modefam + ".read", lambda: h.read(n))))
             S.counters["xof_reads"] = S.counters.get("xof_reads", 0) + 1
         return {"out": b"".join(out)}
